@@ -22,7 +22,7 @@ sys.path.insert(0, ROOT)
 
 from pyvc import sym, interp, models, contract, solve, loader, bounded  # noqa: E402
 
-CONTRACT_MODULES = ["der", "util", "numbertheory", "ellipticcurve", "ecdsa_", "keys", "rfc6979", "ecdh", "keys_load", "keys_ser", "curves"]
+CONTRACT_MODULES = ["der", "util", "numbertheory", "ellipticcurve", "ecdsa_", "keys", "rfc6979", "ecdh", "keys_load", "keys_ser", "curves", "history"]
 
 
 def load_all():
@@ -276,7 +276,13 @@ def write_replay(prop, name, c, args, observed, solver_note, tier):
         mod, q, node = loader.find_function(c.qual)
         rec.update(function=c.qual, file=os.path.relpath(mod.path, "/repo"), lines=[node.lineno, node.end_lineno],
                    source_sha256=mod.func_hash(q))
-    if args is not None:
+    if args is not None and "__script__" in args:
+        # a history / multi-call witness: a self-contained script over the real modules, run under the test-suite's python
+        rec["script"] = args["__script__"]
+        rec["args"] = {k: bounded.show(v) for k, v in args.items() if k != "__script__"}
+        rec["observed_in_checker"] = observed
+        rec["observed_under_venv_python"] = bounded.run_script(args["__script__"])
+    elif args is not None:
         pos = c.pos if isinstance(c, LemmaWitness) else bounded.positional(c, args)
         rec["args"] = {k: bounded.show(v) for k, v in args.items()}
         rec["args_code"] = bounded.to_code(tuple(pos))
